@@ -43,7 +43,7 @@ func init() {
 			}
 			return 6000, 32 * time.Second
 		},
-		Real:  []string{"journal.NewDirectoryGtfsrtSource", "DirectoryGtfsrtSource.Next", "os.ReadDir/os.ReadFile on a real scratch directory", "gtfs.ParseRealtime + nycttrips extension", "journal.BuildJournal", "Journal.ExportToCsv"},
+		Real:  []string{"journal.NewDirectoryGtfsrtSource", "DirectoryGtfsrtSource.Next", "os.ReadDir/os.ReadFile on a real scratch directory", "gtfs.ParseRealtime + nycttrips extension", "journal.BuildJournal", "Journal.ExportToCsv", "the gtfs command line tool built from the working tree (sub-process; half of its runs as user 65534 when the harness is root)"},
 		Stubs: []string{"simulated world/publisher producing the good feeds", "disk model + fault plan (the simulator performs the file operations)", "tee GtfsrtSource that applies faults between Next calls", "slice-backed GtfsrtSource for the reference journal"},
 		Assume: []string{
 			"ParseRealtime with fresh options is used as an oracle component for 'what a good file yields' (its own correctness is C02/C06's business)",
